@@ -17,9 +17,10 @@ C == TR[t]
 Ev == C.events[e]
 \* A session with rewound > 0 is not a new reader: the reader had read `rewound` messages, was asked to save on the
 \* way, and was rewound with Resume(cp) = Wire!Rewind. Whether the source handed over the pending save while the
-\* reader discarded is the environment's choice; it is bound from the log (the pop before the first read).
+\* reader discarded is the environment's choice; it is bound from the log (the pop before the first read). The source
+\* restarts at the checkpoint's source offset, or - a coarse source, gran > 1 - at the multiple of gran below it.
 EarlyPops(c) == {j \in 1..Len(c.events) : c.events[j].e = "pop" /\ c.events[j].idx = c.start /\ c.events[j].off # -1
-                                            /\ c.events[j].srcoff >= c.cpsrc /\ c.events[j].srcoff <= c.cpoff
+                                            /\ c.events[j].srcoff >= (c.cpsrc \div c.gran) * c.gran /\ c.events[j].srcoff <= c.cpoff
                                             /\ \A i \in 1..(j - 1) : c.events[i].e = "want"}
 TInit == /\ t \in 1..Len(TR) /\ e = 1 /\ drift = FALSE
          /\ lens = TR[t].mlens /\ kind = "logged" /\ bounds = {}
